@@ -135,6 +135,21 @@ class CoroDriver:
         del ran[:]
         fresh = desper.CoroutineProcessor()
         problems = []
+        # a coroutine killed in one processor may be handed to another one
+        g3 = body('handed-over', None)
+        used.start(g3)
+        used.kill(g3)
+        try:
+            fresh.start(g3)
+            if fresh.state(g3) != CoroutineState.ACTIVE:
+                problems.append('a coroutine handed over is not ACTIVE')
+            if used.state(g3) != CoroutineState.TERMINATED:
+                problems.append('the kill in the first processor was undone')
+            fresh.kill(g3)
+            fresh.process(0)
+        except Exception as exc:
+            problems.append(f'handing over a killed coroutine raised {exc!r}')
+        del ran[:]
         for g in (g1, g2):
             if fresh.state(g) != CoroutineState.TERMINATED:
                 problems.append(f'state {fresh.state(g)!r} for a coroutine '
